@@ -80,7 +80,7 @@ def generate_rise_tpl_file(
         assert parameters['specific_yield']['type'] == 'spline'
         lines += ['  type: spline', '  zeta_knots_mm:']
         lines += [
-            '    - {}'.format(value)
+            '    - {}'.format(format_yaml_number(value))
             for value in parameters['specific_yield']['zeta_knots_mm']
         ]
         lines += ['  sy_knots:  # Specific yield, dimensionless']
@@ -95,13 +95,13 @@ def generate_rise_tpl_file(
         lines += [
             '  type: peatclsm',
             '  Ksmacz0: {}  # m/s'.format(
-                parameters['transmissivity']['Ksmacz0']
+                format_yaml_number(parameters['transmissivity']['Ksmacz0'])
             ),
             '  alpha: {}  # dimensionless'.format(
-                parameters['transmissivity']['alpha']
+                format_yaml_number(parameters['transmissivity']['alpha'])
             ),
             '  zeta_max_cm: {}'.format(
-                parameters['transmissivity']['zeta_max_cm']
+                format_yaml_number(parameters['transmissivity']['zeta_max_cm'])
             ),
         ]
     else:
@@ -109,18 +109,20 @@ def generate_rise_tpl_file(
         lines += ['  type: spline']
         lines += ['  zeta_knots_mm:']
         lines += [
-            '    - {}'.format(value)
+            '    - {}'.format(format_yaml_number(value))
             for value in parameters['transmissivity']['zeta_knots_mm']
         ]
         lines += ['  K_knots_km_d:  # Conductivity, km /d']
         lines += [
-            '    - {}'.format(value)
+            '    - {}'.format(format_yaml_number(value))
             for value in parameters['transmissivity']['K_knots_km_d']
         ]
         lines += [
             '  minimum_transmissivity_m2_d: {}  '
             '# Minimum transmissivity, m2 /d'.format(
-                parameters['transmissivity']['minimum_transmissivity_m2_d']
+                format_yaml_number(
+                    parameters['transmissivity']['minimum_transmissivity_m2_d']
+                )
             )
         ]
     outfile.write(os.linesep.join(lines))
@@ -263,7 +265,7 @@ def generate_curves_tpl_file(
         assert parameters['specific_yield']['type'] == 'spline'
         lines += ['  type: spline', '  zeta_knots_mm:']
         lines += [
-            '    - {}'.format(value)
+            '    - {}'.format(format_yaml_number(value))
             for value in parameters['specific_yield']['zeta_knots_mm']
         ]
         lines += ['  sy_knots:  # Specific yield, dimensionless']
@@ -280,7 +282,7 @@ def generate_curves_tpl_file(
             '  Ksmacz0: @Ksmacz0                 @  # m/s',
             '  alpha: @alpha                   @  # dimensionless',
             '  zeta_max_cm: {}'.format(
-                parameters['transmissivity']['zeta_max_cm']
+                format_yaml_number(parameters['transmissivity']['zeta_max_cm'])
             ),
         ]
     else:
@@ -288,7 +290,7 @@ def generate_curves_tpl_file(
         lines += ['  type: spline']
         lines += ['  zeta_knots_mm:']
         lines += [
-            '    - {}'.format(value)
+            '    - {}'.format(format_yaml_number(value))
             for value in parameters['transmissivity']['zeta_knots_mm']
         ]
         lines += ['  K_knots_km_d:  # Conductivity, km /d']
@@ -468,6 +470,20 @@ def generate_curves_pst_file(
     ]
     lines += ['* prior information']
     outfile.write(os.linesep.join(lines))
+
+
+def format_yaml_number(value):
+    """Format a number so that it reads back as a number from YAML
+
+    Python writes some floats without a decimal point (5e-05, 1e+16);
+    YAML 1.1, as implemented by PyYAML, reads those as strings.
+
+    """
+    text = '{}'.format(value)
+    if isinstance(value, float) and 'e' in text and '.' not in text:
+        mantissa, exponent = text.split('e')
+        text = '{}.0e{}'.format(mantissa, exponent)
+    return text
 
 
 def check_parameters(parameters):
